@@ -60,6 +60,111 @@ func genGateFacts() (string, error) {
 		}
 		fmt.Fprintf(&b, "  %q%s\n", s, sep)
 	}
-	b.WriteString("]\n\nend Canopy.Gen.GateFacts\n")
+	b.WriteString("]\n")
+	// the library functions the gate calls, normalised the same way: the hand model transcribes their
+	// guard sequences; any edit to one of them changes the pinned list
+	for _, fn := range []struct{ file, recv, name, lean string }{
+		{"lib/certificate.go", "QuorumCertificate", "CheckBasic", "qcCheckBasic"},
+		{"lib/certificate.go", "QuorumCertificate", "Check", "qcCheck"},
+		{"lib/certificate.go", "QuorumCertificate", "CheckProposalBasic", "qcCheckProposalBasic"},
+		{"lib/consensus.go", "AggregateSignature", "CheckBasic", "aggSigCheckBasic"},
+		{"lib/consensus.go", "AggregateSignature", "Check", "aggSigCheck"},
+		{"lib/consensus.go", "View", "CheckBasic", "viewCheckBasic"},
+		{"lib/consensus.go", "View", "Check", "viewCheck"},
+		{"lib/block.go", "Block", "Check", "blockCheck"},
+		{"lib/block.go", "BlockHeader", "Check", "blockHeaderCheck"},
+	} {
+		lines, err := normFunc(fn.file, fn.recv, fn.name)
+		if err != nil {
+			return "", err
+		}
+		fmt.Fprintf(&b, "\n/-- %s.%s (%s), normalised -/\ndef %s : List String := [\n", fn.recv, fn.name, fn.file, fn.lean)
+		for i, s := range lines {
+			sep := ","
+			if i == len(lines)-1 {
+				sep = ""
+			}
+			fmt.Fprintf(&b, "  %q%s\n", s, sep)
+		}
+		b.WriteString("]\n")
+	}
+	b.WriteString("\nend Canopy.Gen.GateFacts\n")
 	return b.String(), nil
+}
+
+// normFunc returns the statements of a method, one per line with indentation for nesting, comments and
+// logging dropped; functions are searched in the named file and, failing that, in the other files of
+// its directory.
+func normFunc(file, recv, name string) ([]string, error) {
+	var fd *ast.FuncDecl
+	paths := []string{filepath.Join(*repo, file)}
+	more, _ := filepath.Glob(filepath.Join(*repo, filepath.Dir(file), "*.go"))
+	paths = append(paths, more...)
+	for _, p := range paths {
+		if strings.HasSuffix(p, "_test.go") {
+			continue
+		}
+		f, err := g.ParseFile(p)
+		if err != nil {
+			continue
+		}
+		if fd = f.FindFunc(recv, name); fd != nil {
+			break
+		}
+	}
+	if fd == nil {
+		return nil, fmt.Errorf("%s: %s.%s not found", file, recv, name)
+	}
+	var out []string
+	var walk func(list []ast.Stmt, prefix string)
+	walk = func(list []ast.Stmt, prefix string) {
+		for _, s := range list {
+			txt := g.StmtText(s)
+			if strings.Contains(txt, ".log.") || strings.HasPrefix(txt, "log.") {
+				continue
+			}
+			switch v := s.(type) {
+			case *ast.IfStmt:
+				for cur := v; cur != nil; {
+					head := "if "
+					if cur != v {
+						head = "} else if "
+					}
+					if cur.Init != nil {
+						head += g.StmtText(cur.Init) + "; "
+					}
+					out = append(out, prefix+head+g.ExprText(cur.Cond)+" {")
+					walk(cur.Body.List, prefix+"  ")
+					switch e := cur.Else.(type) {
+					case *ast.IfStmt:
+						cur = e
+						continue
+					case *ast.BlockStmt:
+						out = append(out, prefix+"} else {")
+						walk(e.List, prefix+"  ")
+					}
+					cur = nil
+				}
+				out = append(out, prefix+"}")
+			case *ast.ForStmt, *ast.RangeStmt:
+				var body *ast.BlockStmt
+				var head string
+				if f, ok := v.(*ast.ForStmt); ok {
+					body = f.Body
+					head = strings.SplitN(txt, "{", 2)[0]
+				} else {
+					r := v.(*ast.RangeStmt)
+					body = r.Body
+					head = strings.SplitN(txt, "{", 2)[0]
+				}
+				out = append(out, prefix+strings.TrimSpace(head)+" {")
+				walk(body.List, prefix+"  ")
+				out = append(out, prefix+"}")
+			default:
+				out = append(out, prefix+txt)
+			}
+		}
+	}
+	walk(fd.Body.List, "")
+	return out, nil
 }
